@@ -4,16 +4,13 @@ import importlib, json, os, sys
 ROOT = os.path.dirname(os.path.abspath(__file__))
 sys.path[:0] = ["/repo", ROOT, os.path.join(ROOT, ".deps")]
 props = [json.loads(l) for l in open(os.path.join(ROOT, "properties.jsonl"))]
+READY = json.load(open(os.path.join(ROOT, "ready.json")))  # property ids whose checks are claimed
 NOT_YET = {}
-try:
-    NOT_YET = json.load(open(os.path.join(ROOT, "not_applicable.json")))
-except FileNotFoundError:
-    pass
 checks, na = [], []
 for p in props:
     pid = p["id"]
     path = os.path.join(ROOT, "vk", "checks", pid.lower() + ".py")
-    if os.path.exists(path) and pid not in NOT_YET:
+    if os.path.exists(path) and pid in READY:
         mod = importlib.import_module(f"vk.checks.{pid.lower()}")
         checks.append({
             "property_id": pid,
